@@ -555,7 +555,8 @@ timers:
 # the previous entry's kwargs into value-less actions)
 TIMER_ACTIONS = ([(a, None) for a in ("start", "stop", "reset", "restart")] + [("pause", v) for v in (0, 2, 3, 5)] +
                  [("add", v) for v in (1, 2, 4)] + [("subtract", v) for v in (1, 2, 4)] +
-                 [("jump", v) for v in (0, 1, 2, 4, 7)] + [("set_tick_interval", v) for v in (1, 2, 3)])
+                 [("jump", v) for v in (0, 1, 2, 4, 7)] + [("set_tick_interval", v) for v in (1, 2, 3)] +
+                 [("change_tick_interval", 2)])
 
 
 def timer_event(action, value):
@@ -603,10 +604,53 @@ def gen_timer_case(r):
             ops.append(["reset"])
         elif k < 0.97:
             ops.append(["restart"])
-        else:
+        elif k < 0.99:
             ops.append(["set_tick_interval", r.choice([1, 2, 3])])
+        else:
+            ops.append(["change_tick_interval", 2])
     ops.append(["adv", r.choice([2, 5, 9])])
     return {"kind": "timer", "cfg": cfg, "ops": ops}
+
+
+_tw = {}
+
+
+def install_timer_logger():
+    """Wrap Timer._timer_tick / Timer.start once per process: tells the active run *why* events appear while time
+    advances (the system timer ran on a running timer, or the 'pause' delay called start)."""
+    from mpf.devices.timer import Timer
+    if _tw.get("cls") is Timer:
+        return
+    o_tick, o_start = Timer._timer_tick, Timer.start
+
+    def _timer_tick(self):
+        run = _tw.get("run")
+        mine = run is not None and not run.finished and self is run.timer
+        if mine and self.running and run.depth == 0:
+            run.cause("clock")
+        if mine:
+            run.depth += 1
+        try:
+            return o_tick(self)
+        finally:
+            if mine:
+                run.depth -= 1
+
+    def start(self, **kwargs):
+        run = _tw.get("run")
+        mine = run is not None and not run.finished and self is run.timer
+        if mine and run.in_adv and run.depth == 0:
+            run.cause("resume")
+        if mine:
+            run.depth += 1
+        try:
+            return o_start(self, **kwargs)
+        finally:
+            if mine:
+                run.depth -= 1
+    Timer._timer_tick = _timer_tick
+    Timer.start = start
+    _tw["cls"] = Timer
 
 
 class TimerRun:
@@ -617,12 +661,21 @@ class TimerRun:
         self.log = []
         self.crash = None
         self.finished = False
+        self.timer = None
+        self.depth = 0
+        self.in_adv = False
+        self.groups = []
 
     def tick(self):
         x = (self.vm.now() - self.t0) / TICK
         return int(x) if x == int(x) else round(x, 6)
 
+    def cause(self, what):
+        self.cur = {"head": what, "t": self.tick(), "obs": [], "state": None}
+        self.groups.append(self.cur)
+
     def run(self):
+        install_timer_logger()
         c = self.case["cfg"]
         y = TIMER_MODE % {"start": c["start"], "end": ("end_value: %d" % c["end"]) if c["end"] is not None else "debug: false",
                           "direction": c["direction"], "iv": "%dms" % (c["iv"] * 125),
@@ -634,6 +687,7 @@ class TimerRun:
             self.vm.start()
         except BootError as e:
             raise InfraError("C13 timer machine does not boot: %s" % e)
+        _tw["run"] = self
         try:
             vm = self.vm
             m = vm.machine
@@ -642,6 +696,7 @@ class TimerRun:
             for ev in self.EVENTS:
                 m.events.add_handler("timer_t1_" + ev, self.make_handler(ev))
             self.log.append(("op", ["mode_start"], self.tick()))
+            self.cause(["mode_start"])
             vm.post("start_m1")
             vm.run()
             if not m.modes["m1"].active:
@@ -652,9 +707,15 @@ class TimerRun:
                 try:
                     if op[0] == "adv":
                         self.log.append(("adv", self.tick(), self.tick() + op[1]))
-                        vm.advance(op[1] * TICK)
+                        self.in_adv = True
+                        try:
+                            vm.advance(op[1] * TICK)
+                        finally:
+                            self.in_adv = False
+                        self.cause("to")
                     else:
                         self.log.append(("op", op, self.tick()))
+                        self.cause(op)
                         vm.post(timer_event(op[0], op[1] if len(op) > 1 else None))
                         vm.run()
                     self.snap()
@@ -666,16 +727,19 @@ class TimerRun:
             self.end = self.tick()
         finally:
             self.finished = True
+            _tw["run"] = None
             self.vm.stop()
         return self
 
     def snap(self):
         self.log.append(("state", self.timer.running, self.timer.ticks, self.tick()))
+        self.cur["state"] = "S %d %s" % (1 if self.timer.running else 0, self.timer.ticks)
 
     def make_handler(self, ev):
         def on_event(ticks=None, **kwargs):
             if not self.finished:
                 self.log.append(("event", ev, ticks, self.tick()))
+                self.cur["obs"].append("%s:%s" % (ev, ticks))
                 if len(self.log) > 6000:
                     self.finished = True
                     raise RuntimeError("runaway: more than 6000 timer events in one case")
@@ -831,6 +895,9 @@ def timer_clock_oracle(run):
             elif o[0] == "set_tick_interval":
                 st["iv"] = o[1]
                 st["arm"] = t
+            elif o[0] == "change_tick_interval":
+                st["iv"] *= o[1]
+                st["arm"] = t
         elif ev[0] == "adv":
             if advance(ev[1], ev[2]) == "tie":
                 tie = True
@@ -863,7 +930,43 @@ def classify_timer(exp, got, extra):
     return "timer-trace-mismatch", d
 
 
-def check_timer_case(ctx, case, shrink=True):
+TIMER_MODEL_OP = {"start": "start", "stop": "stop", "reset": "reset", "restart": "restart", "pause": "pause %d",
+                  "add": "add %d", "subtract": "sub %d", "jump": "jump %d", "set_tick_interval": "setiv %d",
+                  "change_tick_interval": "chiv %d"}
+
+
+def timer_model_lines(run):
+    c = run.case["cfg"]
+    opt = lambda v: "-" if v is None else str(v)
+    out = [("tm new %d %d %s %s %d %d" % (1 if c["direction"] == "up" else 0, c["start"], opt(c["end"]), opt(c["max"]),
+                                         1 if c["roc"] else 0, c["iv"]), "ok")]
+    now = 0
+    for g in run.groups:
+        h = g["head"]
+        if g["t"] != now:
+            out.append(("tm to %s" % g["t"], "ok"))
+            now = g["t"]
+        exp = " ".join(g["obs"]) or "ok"
+        if h == "to":
+            pass
+        elif h == "clock":
+            out.append(("tm clock", exp))
+        elif h == "resume":
+            out.append(("tm resume", exp))
+        elif h == ["mode_start"]:
+            if c["sr"]:
+                out.append(("tm start", exp))
+            elif g["obs"]:
+                out.append(("tm nothing-expected", exp))
+        else:
+            f = TIMER_MODEL_OP[h[0]]
+            out.append(("tm " + (f % h[1] if "%" in f else f), exp))
+        if g["state"] is not None:
+            out.append(("tm state", g["state"]))
+    return out
+
+
+def check_timer_case(ctx, case, shrink=True, model=None):
     run = TimerRun(case).run()
     n_ticks = sum(1 for e in run.log if e[0] == "event" and e[1] == "tick")
     n_ops = sum(1 for e in run.log if e[0] == "op")
@@ -892,6 +995,10 @@ def check_timer_case(ctx, case, shrink=True):
             else:
                 small = case
         ctx.fail(sig, small, detail)
+    if model is not None and not run.crash:
+        lines = timer_model_lines(run)
+        got = [model.ask(l) for l, _ in lines]
+        ctx.compare(dict(case, what="timer device trace", sent=[l for l, _ in lines]), [e for _, e in lines], got)
     return bad
 
 
@@ -929,7 +1036,7 @@ def run(ctx):
             if i % 200 == 199:
                 mpfleak.release()
         for i in range(ctx.n(450, 5000)):
-            check_timer_case(ctx, gen_timer_case(ctx.rng("timer", i)))
+            check_timer_case(ctx, gen_timer_case(ctx.rng("timer", i)), model=model)
             if i % 200 == 199:
                 mpfleak.release()
     finally:
